@@ -1340,7 +1340,7 @@ def run_one(h, recipe):
         return msg + "\n" + text
 
     overlapping = None
-    pre_regs = {regkey(x.type) for x, _ in pairs if regkey(x.type) is not None}
+    pre_regs = {regkey(x.type) for x, _ in pairs if regkey(x.type) is not None} - {ZERO}
 
     def chain_of(reg, a, b):
         """overlap: the register involved is the register of a loop-carried web (block arg / init / yield /
